@@ -135,7 +135,12 @@ class CursorScan:
                     inc = self.increment_of(s["rv"], c)
                     touched = True
                     if inc is None:
-                        problems.append(("reassigned", s["line"], "cursor assigned `%s`" % term_str(m.resolve_rvalue(s["rv"]))))
+                        # `c = X` is fine when X equals c + L as a linear form (e.g. `old_idx = old_len`)
+                        total = dict(want)
+                        ck = term_str(("local", m.local_name(c), c))
+                        total[ck] = total.get(ck, 0) + 1
+                        if norm(lin(m, m.resolve_rvalue(s["rv"]))) != norm(total):
+                            problems.append(("reassigned", s["line"], "cursor assigned `%s`" % term_str(m.resolve_rvalue(s["rv"]))))
                     elif norm(inc) != want:
                         problems.append(("wrong-advance", s["line"], "cursor advanced by %s" % _fmt(inc)))
                     break
